@@ -64,7 +64,7 @@ class Ctx:
             self.coverage["discharged"] += len(thms) + extra_obligations
         else:
             self.broke("proof obligation failed: %s" % r["failed"], r["log"])
-        hits = coqrun.grep_forbidden()
+        hits = coqrun.grep_forbidden(self.pid)
         if hits:
             self.broke("forbidden declaration in development", "\n".join(hits))
         return r["ok"]
